@@ -266,3 +266,22 @@ Proof. intros. split; [now apply P_gen_c13.source_delta_abs_sum|now apply P_gen_
 (** the first hypothesis is satisfiable outright; the second is the C11 pipeline statement *)
 Example C13_clean_spec_nonvacuous : P_gen_c13.clean_spec (fun v => (map (xat v) (P_gen_c13.pst v), P_gen_c13.pst v)).
 Proof. exact P_gen_c13.clean_spec_sat. Qed.
+
+(** (5) the two hypotheses discharged: with the literal transcriptions of clean_out_non_changing and
+    determine_indices_of_peaks_for_cleaned_array (model/M_peaks_pipeline.v) plugged in as the helpers, the translated
+    source functions ARE the peak-only series of the model, for every series that moves, and so conserve total variation *)
+From EQ Require Import model.M_peaks_pipeline proofs.P_gen_c13_glue.
+Theorem C13_delta_series_is_source : forall xs : list R, first_up xs <> None ->
+  gen_delta_series clean_out_non_changing_p peak_indices_cleaned_p xs = delta_series xs.
+Proof. exact P_gen_c13_glue.gen_delta_series_pipeline. Qed.
+Theorem C13_pseudo_series_is_source : forall xs : list R, first_up xs <> None ->
+  gen_pseudo_series clean_out_non_changing_p peak_indices_cleaned_p xs = pseudo_series xs.
+Proof. exact P_gen_c13_glue.gen_pseudo_series_pipeline. Qed.
+Theorem C13_source_conservation : forall xs : list R, first_up xs <> None ->
+  nsum (vabs (gen_delta_series clean_out_non_changing_p peak_indices_cleaned_p xs)) = tv xs /\
+  nsum (gen_pseudo_series clean_out_non_changing_p peak_indices_cleaned_p xs)
+    = / 2 * tv xs + / 2 * sgn_final xs * (last xs 0 - xat xs 0).
+Proof.
+  intros xs Hm. split; [apply P_gen_c13.source_delta_abs_sum|apply P_gen_c13.source_pseudo_sum];
+    solve [exact P_gen_c13_glue.clean_spec_pipeline | exact P_gen_c13_glue.cpk_spec_pipeline | exact Hm].
+Qed.
